@@ -235,17 +235,24 @@ def _check_budget(ctx: Ctx, fn: FuncInfo) -> None:
                       'to the total power' % (aux.pretty(), budget, n_on.pretty()), fn.path, scat[0].lineno, operand='spread')
     # the drop loop
     ctx.instance('C12.e', 'doWF:drop-while-unaffordable')
-    whiles = [n for n in walk_no_nested(fn.node) if isinstance(n, ast.While)]
+    whiles = [n for n in walk_no_nested(fn.node) if isinstance(n, ast.While) or
+              (isinstance(n, ast.For) and any(isinstance(x, ast.Break) for x in ast.walk(n)))]
     if len(whiles) != 1:
-        ctx.error('C12.e: doWF has %d while loops (one drop loop expected; cannot tell)' % len(whiles))
-    from ..paths import implied_compares
-    test = whiles[0].test
+        ctx.error('C12.e: doWF has %d drop loops (one expected; cannot tell)' % len(whiles))
+    test = whiles[0].test if isinstance(whiles[0], ast.While) else ast.Constant(value=True)
     if isinstance(test, ast.Constant) and test.value is True:
-        # do-while form: the exit test is the negation of the continue condition
+        # do-while / counted form: the loop goes on while the exit test `if <T>: break` is false
         brk = [n for n in ast.walk(whiles[0]) if isinstance(n, ast.If) and any(isinstance(x, ast.Break) for x in n.body)]
-        if len(brk) != 1 or not (isinstance(brk[0].test, ast.UnaryOp) and isinstance(brk[0].test.op, ast.Not)):
-            ctx.error('C12.e: the exit of the drop loop is not `if not (<continue condition>): break` (cannot tell)')
-        test = brk[0].test.operand
+        if len(brk) != 1:
+            ctx.error('C12.e: the drop loop has %d `if ...: break` exits (one expected; cannot tell)' % len(brk))
+        bt = brk[0].test
+        if isinstance(bt, ast.UnaryOp) and isinstance(bt.op, ast.Not):
+            test = bt.operand
+        elif isinstance(bt, ast.Compare) and len(bt.ops) == 1 and isinstance(bt.ops[0], (ast.LtE, ast.GtE, ast.Lt, ast.Gt)):
+            neg = {ast.LtE: ast.Gt, ast.GtE: ast.Lt, ast.Lt: ast.GtE, ast.Gt: ast.LtE}[type(bt.ops[0])]
+            test = ast.fix_missing_locations(ast.copy_location(ast.Compare(left=bt.left, ops=[neg()], comparators=bt.comparators), bt))
+        else:
+            ctx.error('C12.e: the exit test `%s` of the drop loop is not a negation or a single comparison (cannot tell)' % norm(bt)[:60])
     from ..paths import conjuncts
     over = False
     seen_cmp = []
